@@ -95,7 +95,7 @@ type hashSink struct {
 // that write their arguments.
 func (p *Prog) hashSinks(fn *ssa.Function) []hashSink {
 	var out []hashSink
-	eachInstr(fn, false, func(_ *ssa.Function, i ssa.Instruction) {
+	eachInstr(fn, true, func(_ *ssa.Function, i ssa.Instruction) {
 		if a, ok := hashWriteArg(i); ok {
 			out = append(out, hashSink{instr: i, args: []ssa.Value{a}, conds: condFacts(i.Block())})
 			return
@@ -393,6 +393,11 @@ func (p *Prog) hashFraming(fn *ssa.Function) []frameFinding {
 	var out []frameFinding
 	sinks := p.hashSinks(fn)
 	loops := loopBlocks(fn)
+	for _, a := range withAnon(fn)[1:] {
+		for h, body := range loopBlocks(a) {
+			loops[h] = body
+		}
+	}
 	inLoop := func(b *ssa.BasicBlock) *ssa.BasicBlock {
 		// innermost = the header with the smallest body containing b
 		var best *ssa.BasicBlock
@@ -403,6 +408,9 @@ func (p *Prog) hashFraming(fn *ssa.Function) []frameFinding {
 					best, bestN = h, len(body)
 				}
 			}
+		}
+		if best == nil && b.Parent().Parent() != nil && strings.Contains(b.Parent().Synthetic, "range-over-func") {
+			return b.Parent().Blocks[0] // the body of a range-over-func loop runs once per item
 		}
 		return best
 	}
